@@ -9,7 +9,7 @@
         -> the model of meta.find_undeclared_variables (sorted, unique) | nocall flag
      (ref K texpr)   K = e|i|m|f   -> the model of meta.find_referenced_templates for one node
      (req K texpr (dv (x name...)...) (truth x...) (have name...)) -> names asked from the loader
-        texpr : (c cval) (seq item...) (dyn X) (cond T name name);  cval : (s c...) other (q cval...)
+        texpr : (c cval) (seq item...) (dyn X) (cond T item item);  cval : (s c...) other (q cval...)
         item  : (ic cval) (id X);  name : (s c...)
    names / attributes are integers; text is a list of code points.
    expr : (n X) (i Z) (s c...) (cat e e) (add e e) (attr X A)
@@ -93,7 +93,7 @@ let texpr = function
   | L [A "c"; c] -> TConst (cval c)
   | L (A "seq" :: its) -> TSeq (List.map titem its)
   | L [A "dyn"; x] -> TDyn (nm x)
-  | L [A "cond"; t; a; b] -> TCond (nm t, tname a, tname b)
+  | L [A "cond"; t; a; b] -> TCond (nm t, titem a, titem b)
   | _ -> failwith "texpr"
 let rkind = function A "e" -> KExtends | A "i" -> KInclude | A "m" -> KImport | A "f" -> KFromImport | _ -> failwith "kind"
 let text s = String.concat "," (List.map (fun c -> string_of_int (int_of_n c)) s)
